@@ -44,6 +44,8 @@ pub const ODD: &[&str] = &[
     "\u{1f600}", "a\u{301}", "\u{feff}", "0", "1", "123", "007", "4294967295", "4294967296", "-1", "1e3", "0x10", "1_000",
     "name,name,unit", "x,id,struct", "_", "__", "_0_", "_1_", "_42_", "true ", "a:b", "a;b", "a=b", "(", ")", "#", "@", "%", "<T>",
     "&amp;", "\\u{41}", "\\n", "\\",
+    // a backslash followed by what would be an escape if the text were escaped twice
+    "\\0", "C:\\0day", "\\u{0}", "\\\\", "\\\"", "\\t\\r", "\\x41", "a\\0\0b", "\\'",
 ];
 
 /// Pairs of distinct identifiers with equal hash (found offline by a birthday
